@@ -71,3 +71,7 @@ prop('C16','exploration','expected-set vs. content-hashed listing before/after p
  'Stores are populated with referenced / unreferenced / invalid chunks in both formats, junk, temp files and misplaced chunk-named files; prune (library, CLI, S3, SFTP; all reference-set kinds) must leave referenced, other-format and non-chunk objects byte-identical and, on success, remove every unreferenced own-format chunk and temp file; verify (n in {1,4,16}, with/without repair, library and CLI) must report exactly the invalid own-format chunks and remove exactly those.',
  'S3/SFTP are loopback stand-ins; SFTP opened with N=2 (N=1 deadlocks in SFTPStore.Prune, recorded in DESIGN.md as an observation outside the statement).',
  'DESIGN.md 5/C16')
+prop('C20','exploration','store listing + own zstd frame walker + cross-decoder checks (klauspost, libzstd 1.5.2 build of desync, system libzstd 1.5.4 via cgo helper) over stores written by both builds; mixed-format directory operations',
+ 'Chunks of every class are stored by the default build (library, Copy between formats, cache, chop) and by the -tags datadog build, compressed and uncompressed; file names, raw content, single-frame structure and decodability under three decoders are checked, fixture stores are read by both builds, and in directories holding both formats a client of one format must report the other\'s chunks missing, never serve them and leave them byte-identical under verify --repair and prune.',
+ 'casync is not available: fixture stores stand for casync-written ones; reference libzstd = system 1.5.4 and the vendored 1.5.2.',
+ 'DESIGN.md 5/C20')
